@@ -51,7 +51,11 @@ def check(prop, tier, runs_override=None):
     sample = [r for r in results if r["index"] % 37 == 0][:24]
     runner.preload(eng, tier)
     for r in sample:
-        again = runner.isolated(eng.run_index, seed, tier, r["index"], tmpdir)
+        if r.get("pyopt"):
+            # a run whose world is an interpreter started with -O is re-executed in one
+            again = runner.in_optimised_interpreter(("run_index", prop, seed, tier, r["index"]))
+        else:
+            again = runner.isolated(eng.run_index, seed, tier, r["index"], tmpdir)
         if again["digest"] != r["digest"]:
             return harness_error("non-deterministic run: property=%s seed=%d run=%d digests %s vs %s"
                                  % (prop, seed, r["index"], r["digest"][:16], again["digest"][:16]))
